@@ -112,11 +112,16 @@ type vregProj struct {
 	Reg  []map[string]any          `json:"reg"`
 	Tmo  []map[string]any          `json:"tmo"`
 	Look map[string]map[string]any `json:"look,omitempty"`
+	Idx  []string                  `json:"idx"` // the phantoms the per-phantom index (outer map) has an entry for, empty ones included
 }
 
 // project reads the real maps (single-threaded driver, no lock needed) with the projection of Appendix A.
 func (w *vregWorld) project(phantoms []string, now time.Time) vregProj {
-	pr := vregProj{Reg: []map[string]any{}, Tmo: []map[string]any{}}
+	pr := vregProj{Reg: []map[string]any{}, Tmo: []map[string]any{}, Idx: []string{}}
+	for ip := range w.r.decoys {
+		pr.Idx = append(pr.Idx, w.phantOf[ip])
+	}
+	sort.Strings(pr.Idx)
 	for ip, m := range w.r.decoys {
 		for ident, d := range m {
 			_ = ident
